@@ -271,5 +271,6 @@ pub fn run(tier: Tier, seed: u64) -> i32 {
         exhaustive_note: "every reachable state for every case".into(),
         e1: true,
     };
+    st.merge(crate::props::c13::api_use_part(&deadline));
     finish(meta, st, started)
 }
